@@ -44,10 +44,11 @@ type Scen struct {
 	PluginErr bool      `json:"pluginErr"`
 	Crit      string    `json:"crit"`    // none processed unprocessed
 	CritInt   bool      `json:"critInt"` // COSE integer-keyed critical attribute
+	CapOrder  int       `json:"capOrder"` // order in which the plugin declares its capabilities
 }
 
 func (s *Scen) fp() uint64 {
-	return stats.Fingerprint(s.Level.Key(), s.Level.String(), s.Scheme, s.Format, s.Trust, s.Identity, s.Expiry, s.CertTime, s.Rev, s.Plugin, s.MinVer, s.TIVerdict, s.RVVerdict, s.PluginErr, s.Crit, s.CritInt)
+	return stats.Fingerprint(s.Level.Key(), s.Level.String(), s.Scheme, s.Format, s.Trust, s.Identity, s.Expiry, s.CertTime, s.Rev, s.Plugin, s.MinVer, s.TIVerdict, s.RVVerdict, s.PluginErr, s.Crit, s.CritInt, s.CapOrder)
 }
 
 const pluginName = "verif-plugin"
@@ -292,6 +293,20 @@ func realise(s *Scen) (*run, error) {
 		case "both":
 			plug.Capabilities = []pf.Capability{pf.CapabilityRevocationCheckVerifier, pf.CapabilityTrustedIdentityVerifier}
 		}
+		// the order (and the company of signing capabilities) in which a plugin declares its
+		// capabilities must not matter
+		switch s.CapOrder % 3 {
+		case 1:
+			for i, j := 0, len(plug.Capabilities)-1; i < j; i, j = i+1, j-1 {
+				plug.Capabilities[i], plug.Capabilities[j] = plug.Capabilities[j], plug.Capabilities[i]
+			}
+		case 2:
+			rev := append([]pf.Capability{pf.CapabilityEnvelopeGenerator}, plug.Capabilities...)
+			for i, j := 1, len(rev)-1; i < j; i, j = i+1, j-1 {
+				rev[i], rev[j] = rev[j], rev[i]
+			}
+			plug.Capabilities = rev
+		}
 	}
 	v, err := verifier.NewVerifierWithOptions(ts, opts)
 	if err != nil {
@@ -512,6 +527,7 @@ func drawScen(rt *rapid.T) *Scen {
 		RVVerdict: rp.Pick(rt, "rvVerdict", "success", "success", "success", "success", "failure", "missing"),
 		PluginErr: rapid.IntRange(0, 15).Draw(rt, "pluginErr") == 0,
 		Crit:      rp.Pick(rt, "crit", "none", "none", "processed", "unprocessed"),
+		CapOrder:  rapid.IntRange(0, 2).Draw(rt, "capOrder"),
 	}
 	if s.Crit != "none" && s.Format == envb.MTCOSE {
 		s.CritInt = rapid.IntRange(0, 2).Draw(rt, "critIntKey") == 0
